@@ -30,7 +30,9 @@ static void bk_create(S& s, int, int = 1)
 extern "C" {
 int call_cb_n(int (*cb)(int), int v, int n);
 int lib_id(void);
+int lib_id2(void);
 long add3(long a, int b, short c);
+int inc1(int v);
 int ncalls(int which);
 }
 using SB = rlbox::rlbox_dylib_sandbox;
@@ -80,6 +82,7 @@ static const char* bk_name = "mbox";
 // app-ABI prototypes (never defined)
 int call_cb_n(int (*cb)(int), int v, int n);
 int lib_id(void);
+int lib_id2(void);
 long add3(long a, int b, short c);
 // guest implementations in the guest ABI
 using g_int = typename SB::T_IntType;
